@@ -25,7 +25,7 @@ Section Top.
   Proof.
     destruct (exec_ok lvl) as [Hi Hr]. unfold check_handler.
     assert (H : replays (_ <- (match r with Err (XInvalid m) => if internal_msg m then mark_dirty else ret tt | _ => ret tt end) ;;
-        c <- cleanup LF (exec geom LF lvl) ;;
+        c <- cleanup LF (exec geom LF lvl) false ;;
         t <- get_ts ;;
         let r' := match c with
                   | Some e => Err e
